@@ -2083,6 +2083,21 @@ func runC15Facts(c *gen.Ctx) error {
 	fmt.Fprintf(&b, "def frameHeaderLen : Nat := %d\n", hl)
 	fmt.Fprintf(&b, "def retryWaitMs : Nat := %d\n", rw)
 	fmt.Fprintf(&b, "def traceTimeoutMs : Nat := %d\n", tt)
+	// the counters of http2FrameTracer at their Go widths (reflection over the compiled types)
+	kinds, maxWire := tracer.VerifC15Widths()
+	bits := map[string][2]string{
+		"uint8": {"8", "false"}, "uint16": {"16", "false"}, "uint32": {"32", "false"}, "uint64": {"64", "false"}, "uint": {"64", "false"}, "uintptr": {"64", "false"},
+		"int8": {"8", "true"}, "int16": {"16", "true"}, "int32": {"32", "true"}, "int64": {"64", "true"}, "int": {"64", "true"},
+	}
+	b.WriteString("\n")
+	for _, f := range []string{"ftExpecting", "ftActual", "frameLength"} {
+		bs, ok := bits[kinds[f]]
+		if !ok {
+			bs = [2]string{"0", "false"} // missing field / not an integer: contradicts the theorem
+		}
+		fmt.Fprintf(&b, "/-- Go kind: %s -/\ndef %sBits : Nat := %s\ndef %sSigned : Bool := %s\n", kinds[f], f, bs[0], f, bs[1])
+	}
+	fmt.Fprintf(&b, "/-- http2.ReadFrameHeader on length bytes ff ff ff -/\ndef maxWireFrameLen : Nat := %d\n", maxWire)
 	b.WriteString("\nend ConfModel.Generated.C15Facts\n")
 	// --out is handled by main (stdout of this area is the emitter); write through the emitter's file
 	return c15WriteFacts(c, b.String())
